@@ -28,6 +28,7 @@ EXPLANATION = (
 
 def run(ctx: Ctx):
     guards.rule_enter_guards(ctx, "MEM", "D1")
+    ctx.attempt(rules.rule_activity_writes, ctx, "D1")  # the guards above bind only if activities are installed through enter()
     pooling_helper(ctx)
     membership_semantics(ctx)
     dispatcher(ctx)
